@@ -83,9 +83,17 @@ def build(rng, geom, dtype):
     elif geom == "hyperout":
         # an *output* label that also joins two tensors (a hyper network in quimb's sense: output_inds must be given)
         hyper = True
-        ts.append(T_(["o", "x0", "p0"], [2, 2, 2], "T0"))
-        ts.append(T_(["o", "x1"], [2, 2], "T1"))
-        ts.append(T_(["x0", "x1", "p1"], [2, 2, 2], "T2"))
+        if rng.random() < 0.5:
+            ts.append(T_(["o", "x0", "p0"], [2, 2, 2], "T0"))
+            ts.append(T_(["o", "x1"], [2, 2], "T1"))
+            ts.append(T_(["x0", "x1", "p1"], [2, 2, 2], "T2"))
+        else:
+            # two tensors that share the output label and a fat bond: the pair is worth re-factorising
+            b = rng.choice([4, 5, 6])
+            ts.append(T_(["o", "p0", "x0"], [2, 2, b], "T0"))
+            ts.append(T_(["o", "x0", "p1"], [2, b, 2], "T1"))
+            if rng.random() < 0.5:
+                ts.append(T_(["p1", "p2"], [2, 2], "T2"))
     elif geom == "structured":
         # tensors with diagonal / antidiagonal / single-column structure so the structure finders fire
         diag = np.diag([1.0, 2.0])
